@@ -91,6 +91,8 @@ def run_case(rec, case):
     dims = (1, 2, 2) if (case.get('tier') == 'quick' or case['idx'] % 7) else (3,)
     desc = hgen.random_desc(rng, dims=dims, pmax=3 if 3 not in dims else 2, n0max=3 if 3 not in dims else 2, max_steps=3, max_levels=4 if 3 not in dims else 3,
                             bd_choices=('none', 'empty', 'one', 'all'))
+    # the marking strategy for truncated bases (refine(..., truncate=True)) keeps only the THB functions within the disparity
+    if desc['disparity'] is not None and rng.random() < 0.2: desc['mark_truncate'] = True
     hs, hist = hgen.build(desc)
     desc = dict(desc, history=hist)
     dim = hs.dim; L = hs.numlevels
@@ -103,7 +105,8 @@ def run_case(rec, case):
     c = dict(case, space=desc, geo=gk)
     rec.case(c, nontrivial=L >= 2, key=[desc, vf_name, gk])
     sig = {'route': 'assemble(hspace)', 'form': vf_name, 'truncate': bool(hs.truncate), 'disparity_finite': bool(np.isfinite(hs.disparity)),
-           'bdspecs': 'none' if desc['bdspecs'] is None else ('empty' if not desc['bdspecs'] else 'faces'), 'dim': dim}
+           'bdspecs': 'none' if desc['bdspecs'] is None else ('empty' if not desc['bdspecs'] else 'faces'), 'dim': dim,
+           'marking': 'truncate' if desc.get('mark_truncate') else 'default'}
     vf, spec, symmetric, arity = _make_form(vf_name, dim)
     fields = _fields(rng, dim, spec)
     args = dict(fields, geo=geo)
